@@ -873,6 +873,150 @@ def judge_iso(inp, obs, lr):
     return None
 
 
+# =====================================================================================
+# oracle: every non-default keyword option of the Representation API (enumerated from the signatures)
+# =====================================================================================
+OPTION_CASES = ["init_generator_names", "init_invert_gen", "init_dtype", "element_parse_simple", "conjugate_inv_dtype",
+                "conjugate_unwrap_false", "compose_options", "subgroup_options", "differential_options", "adjoint_dtype",
+                "astype_complex", "elements_iterables", "set_generator_options"]
+
+
+def gen_opts(rng, n):
+    for i in range(n):
+        case = OPTION_CASES[i % len(OPTION_CASES)]
+        dim = rng.randint(1, 3)
+        simple = rng.random() < 0.6
+        spec = H.no_int32(H.rand_spec(rng, ring=rng.choice(["Q", "Q", "Z"]), simple=simple, n=dim,
+                                      names=H.rand_names(rng, simple, rng.randint(1, 3)), reassign=False))
+        alph = H.spec_names(spec)
+        yield {"case": case, "spec": spec, "w": H.rand_letters(rng, alph, rng.choice([1, 2, 4])),
+               "w2": H.rand_letters(rng, alph, rng.choice([1, 2, 3])), "C": H.enc(H.unimodular(rng, dim, 3)),
+               "coin": rng.random() < 0.5, "coin2": rng.random() < 0.5}
+
+
+@H.limited(20)
+def run_opts(inp):
+    case, spec = inp["case"], inp["spec"]
+    simple, n = spec["simple"], spec["n"]
+    rep = H.build_rep(spec)
+    j = lambda w: H.join_word(w, simple)
+    w, w2 = j(inp["w"]), j(inp["w2"])
+    A = np.asarray(rep[w], dtype=float)
+    A2 = np.asarray(rep[w2], dtype=float)
+    I = np.eye(n)
+    Cq = H.dec(inp["C"])
+    C = H.tonp(inp["C"])
+    Ci = H.tonp(H.enc(H.finv(Cq)))
+    gens = list(rep.asym_gens())
+    checks = []     # (name, got, want)
+    if case == "init_generator_names":
+        g = gens[0]
+        sub = R.Representation(rep, generator_names=[g, H.swapcase(g)])
+        checks.append(("keys", list(sub.generators), [g, H.swapcase(g)]))
+        checks.append(("value", sub[j([g, g, H.swapcase(g)])], rep[j([g])]))
+    elif case == "init_invert_gen":
+        inv = lambda g: g[:-1] if g.endswith("i") else g + "i"       # x <-> xi
+        r2 = R.Representation(parse_simple=False, invert_gen=inv)
+        r2["x"] = np.asarray(rep[w], dtype=float)
+        r2["y"] = np.asarray(rep[w2], dtype=float)
+        checks.append(("keys", list(r2.generators), ["x", "xi", "y", "yi"]))
+        checks.append(("inverse", r2["x*xi"], I))
+        checks.append(("word", r2["x*y*xi"], A @ A2 @ np.linalg.inv(A)))
+        d = r2.dual()
+        checks.append(("derived keeps invert_gen", d["y*yi"], I))
+    elif case == "init_dtype":
+        r2 = R.Representation(dtype="complex128", parse_simple=simple)
+        checks.append(("empty word dtype", np.dtype(r2.dtype) == np.dtype("complex128"), True))
+        for h in spec["hist"]:
+            r2[h["g"]] = H.tonp_h(h, spec["ring"])
+        checks.append(("value", r2[w], A))
+    elif case == "element_parse_simple":
+        if simple:
+            checks.append(("explicit False", rep.element("*".join(inp["w"]), parse_simple=False), A))
+            checks.append(("explicit True", rep.element(w, parse_simple=True), A))
+        else:
+            checks.append(("explicit False", rep.element(w, parse_simple=False), A))
+            one = [x for x in inp["w"] if len(x) == 1]
+            if one:
+                checks.append(("explicit True", rep.element("".join(one), parse_simple=True), np.asarray(rep[j(one)], dtype=float)))
+    elif case == "conjugate_inv_dtype":
+        # the inverse supplied by the caller, in a dtype different from the matrix
+        d = rep.conjugate(C.astype(np.int64) if inp["coin"] else C, Ci.astype(complex) if inp["coin2"] else Ci.astype(np.int64))
+        checks.append(("value", d[w], Ci @ A @ C))
+    elif case == "conjugate_unwrap_false":
+        d = rep.conjugate(C, unwrap=False) if inp["coin"] else rep.conjugate(C, Ci, unwrap=False)
+        checks.append(("value", d[w], Ci @ A @ C))
+    elif case == "compose_options":
+        d = rep.compose(lambda M: np.kron(M, M), hom_in_wrapped=inp["coin"], hom_out_wrapped=inp["coin2"],
+                        compute_inverses=inp["coin"] != inp["coin2"], dtype="complex128" if inp["coin2"] else None)
+        checks.append(("value", d[w], np.kron(A, A)))
+        checks.append(("relations", list(d.relations), list(rep.relations)))
+    elif case == "subgroup_options":
+        names = ["u", "V"] if inp["coin"] else ["p", "q"]
+        rels = ["uv"] if inp["coin2"] else []
+        d = rep.subgroup([w, w2], generator_names=names, relations=rels, compute_inverse=inp["coin"])
+        checks.append(("keys", sorted(d.generators), sorted(names + [H.swapcase(x) for x in names])))
+        checks.append(("relations", list(d.relations), rels))
+        checks.append(("value", d[names[0] + H.swapcase(names[1])], A @ np.linalg.inv(A2)))
+        d2 = rep.subgroup({"m": w2, "k": w})          # dict form: names from the keys
+        checks.append(("dict value", d2["km"], A @ A2))
+    elif case == "differential_options":
+        D = np.asarray(rep.differential(w), dtype=float)
+        k = int(inp["coin"]) % len(gens)
+        checks.append(("generator=", rep.differential(w, generator=gens[k]), D[:, k * n:(k + 1) * n]))
+        checks.append(("differentials", rep.differentials([w, w2]), np.concatenate([D, np.asarray(rep.differential(w2), dtype=float)], axis=0)))
+        r2 = R.Representation(rep, relations=[w, w2])
+        checks.append(("cocycle generator=", r2.cocycle_matrix(generator=gens[k]),
+                       np.asarray(r2.cocycle_matrix(), dtype=float)[:, k * n:(k + 1) * n]))
+    elif case == "adjoint_dtype":
+        dt = "complex128" if inp["coin"] else "float64"
+        d = rep.gln_adjoint(dtype=dt) if inp["coin2"] or n < 2 else rep.sln_adjoint(dtype=dt)
+        X = C - (np.trace(C) / n) * I if not (inp["coin2"] or n < 2) else C
+        co = X.reshape(-1) if (inp["coin2"] or n < 2) else X.reshape(-1)[:-1]
+        Y = A @ X @ np.linalg.inv(A)
+        checks.append(("dtype", np.asarray(d[w]).dtype == np.dtype(dt), True))
+        checks.append(("action", np.asarray(d[w]) @ co, Y.reshape(-1) if (inp["coin2"] or n < 2) else Y.reshape(-1)[:-1]))
+    elif case == "astype_complex":
+        d = rep.astype("complex128" if inp["coin"] else np.float64)
+        checks.append(("value", d[w], A))
+        checks.append(("dtype", all(np.asarray(m).dtype == np.dtype("complex128" if inp["coin"] else "float64") for m in d.generators.values()), True))
+    elif case == "elements_iterables":
+        want = np.array([A, A2, A])
+        for name, ws in (("tuple", (w, w2, w)), ("generator", (x for x in [w, w2, w])), ("iter", iter([w, w2, w])),
+                         ("ndarray", np.array([w, w2, w])), ("dict keys", {w: 0, w2: 1}.keys())):
+            got = np.asarray(rep.elements(ws))
+            checks.append((name, got, want if name != "dict keys" else (want[:2] if w != w2 else want[:1])))
+        checks.append(("one word", np.asarray(rep.elements([w])).shape, (1, n, n)))
+    elif case == "set_generator_options":
+        r2 = R.Representation(parse_simple=simple)
+        g = gens[0]
+        M = np.asarray(rep[j([g])], dtype=float)
+        r2.set_generator(g, M, compute_inverse=False)
+        checks.append(("no inverse stored", list(r2.generators), [g]))
+        r2.set_generator(H.swapcase(g), np.linalg.inv(M), compute_inverse=False)
+        checks.append(("value", r2[j([g, H.swapcase(g), g])], M))
+        r2.set_generator(g, M @ M, compute_inverse=True)
+        checks.append(("re-assigned", r2[j([H.swapcase(g)])], np.linalg.inv(M @ M)))
+    nb = (H.norm_bound(rep, inp["w"] + inp["w2"]) * H.norm_bound(rep, [H.swapcase(x) for x in inp["w"] + inp["w2"]])) ** 2
+    b = 100 * nb * (1 + float(np.abs(C).max()) ** 2) * (1 + float(np.abs(Ci).max()) ** 2)
+    for name, got, want in checks:
+        if isinstance(want, (list, tuple, bool)):
+            if (list(got) if isinstance(want, (list, tuple)) else bool(got)) != (list(want) if isinstance(want, (list, tuple)) else want):
+                return {"bad": name, "got": str(got)[:200], "want": str(want)[:200]}
+        elif not H.mclose(got, want, b, 1e-9):
+            return {"bad": name, "got": str(np.asarray(got))[:200], "want": str(np.asarray(want))[:200]}
+    return {"bad": None, "nchecks": len(checks)}
+
+
+def judge_opts(inp, obs, lr):
+    tags = {"case": inp["case"], "simple": inp["spec"]["simple"], "ring": inp["spec"]["ring"]}
+    if "exc" in obs:
+        return {"expected": "the option is accepted", "observed": obs, "tags": dict(tags, exc=obs["exc"])}
+    if obs["bad"] is not None:
+        return {"expected": "the documented effect of the keyword option", "observed": obs, "tags": dict(tags, check=obs["bad"])}
+    return None
+
+
 CLAUSES = [
     Clause("words_corr", "corr", gen_words, run_words, judge_words, lean=lean_words, site="utils.words",
            budget={"quick": 200, "thorough": 6000},
@@ -895,6 +1039,9 @@ CLAUSES = [
     Clause("isolation_oracle", "oracle", gen_iso, run_iso, judge_iso, site="Representation (object histories)",
            budget={"quick": 150, "thorough": 5000},
            what="two unrelated representations with the same generator names, interleaved histories of queries (rep[w] incl. one-letter words, elements, differential, coboundary), derived representations, new / re-assigned generators; every returned array is modified in place and the query repeated; after every step both objects are compared with fresh objects built from their current generators"),
+    Clause("options_oracle", "oracle", gen_opts, run_opts, judge_opts, site="Representation keyword options",
+           budget={"quick": 130, "thorough": 4000},
+           what="every non-default keyword option of the Representation API against an independent formula: copy(generator_names, invert_gen, dtype), element(parse_simple), conjugate(inv_mat of another dtype, unwrap=False), compose(hom_in_wrapped, hom_out_wrapped, compute_inverses, dtype), subgroup(generator_names, relations, compute_inverse, dict), differential(generator=), differentials, cocycle_matrix(generator=), gln/sln_adjoint(dtype=), astype, elements(tuple/generator/iterator/ndarray/dict keys), set_generator(compute_inverse)"),
     Clause("fox_oracle", "oracle", gen_foxo, run_foxo, judge_foxo, site="Representation.differential",
            budget={"quick": 360, "thorough": 12000},
            what="Fox fundamental formula, D(w) @ coboundary = I - rho(w), cocycle @ coboundary = 0 for satisfied relations (commuting generators, torsion)"),
